@@ -184,20 +184,23 @@ func (r *receiver) consumeSegment(s *segment, segSeq seqnum.Value, segLen seqnum
 // r as they arrive. It is called by the protocol main loop.
 // 从 handleSegments 接收到tcp段，然后进行处理消费，所谓的消费就是将负载内容插入到接收队列中
 func (r *receiver) handleRcvdSegment(s *segment) {
-	// We don't care about receive processing anymore if the receive side
-	// is closed.
-	if r.closed {
-		return
-	}
-
 	segLen := seqnum.Size(s.data.Size())
 	segSeq := s.sequenceNumber
 
 	// If the sequence number range is outside the acceptable range, just
-	// send an ACK. This is according to RFC 793, page 37.
+	// send an ACK. This is according to RFC 793, page 37, and holds after
+	// the peer's FIN as well: a keep-alive probe (one below rcvNxt) from a
+	// peer that waits for our data must still be answered, or the peer
+	// gives up a healthy half-closed connection.
 	// tcp流量控制：判断该数据段的序列号是否在接收窗口内，如果不在，立即返回ack给对端。
 	if !r.acceptable(segSeq, segLen) {
 		r.ep.snd.sendAck()
+		return
+	}
+
+	// We don't care about receive processing anymore if the receive side
+	// is closed.
+	if r.closed {
 		return
 	}
 
